@@ -817,6 +817,17 @@ def _resolver_ctx_ordinal(world: World, d: Any) -> Optional[int]:
     return None
 
 
+_DEP_CVS: Dict[str, Any] = {}
+
+
+def _dep_cv(nid: str) -> Any:
+    """One ContextVar per dependency name (request-scoped state a dependency sets while open and resets on teardown)."""
+    cv = _DEP_CVS.get(nid)
+    if cv is None:
+        cv = _DEP_CVS[nid] = contextvars.ContextVar("dep_" + nid, default=None)
+    return cv
+
+
 def make_dep_funcs(world: World, tspec: dict) -> Dict[str, Any]:
     nodes = {n["id"]: n for n in tspec.get("deps", [])}
     funcs: Dict[str, Any] = {}
@@ -886,6 +897,7 @@ def make_dep_funcs(world: World, tspec: dict) -> Dict[str, Any]:
                     world.rec("dep_fail", DELIVERY.get(), dep=nid)
                     raise SimError("dep " + nid)
                 val = opened(kw)
+                tok = _dep_cv(nid).set(val.get("inst")) if node.get("ctxbound") else None
                 seen: Optional[BaseException] = None
                 try:
                     yield val
@@ -893,6 +905,8 @@ def make_dep_funcs(world: World, tspec: dict) -> Dict[str, Any]:
                     seen = exc
                     raise
                 finally:
+                    if tok is not None and not isinstance(seen, GeneratorExit):
+                        _dep_cv(nid).reset(tok)        # only legal in the Context (task) in which the dependency was opened
                     closed(seen, val.get("inst"))
             f = contextmanager(g) if style == "cm" else g  # type: ignore[assignment]
         elif style in ("agen", "acm"):
@@ -904,6 +918,7 @@ def make_dep_funcs(world: World, tspec: dict) -> Dict[str, Any]:
                     world.rec("dep_fail", DELIVERY.get(), dep=nid)
                     raise SimError("dep " + nid)
                 val = opened(kw)
+                tok = _dep_cv(nid).set(val.get("inst")) if node.get("ctxbound") else None
                 seen: Optional[BaseException] = None
                 try:
                     yield val
@@ -913,6 +928,8 @@ def make_dep_funcs(world: World, tspec: dict) -> Dict[str, Any]:
                 finally:
                     if post and not isinstance(seen, GeneratorExit):
                         await _sleep_us(post)
+                    if tok is not None and not isinstance(seen, GeneratorExit):
+                        _dep_cv(nid).reset(tok)
                     closed(seen, val.get("inst"))
             f = asynccontextmanager(ag) if style == "acm" else ag  # type: ignore[assignment]
         else:
